@@ -884,6 +884,38 @@ class _HzBox:
     def shrink_empty(self):
         while len(self.d) >= self.cap:
             self.d.popitem()
+
+
+class _HzRing:
+    def __init__(self, n):
+        self.n = n
+        self.items = []
+
+    def __len__(self):
+        return len(self.items)
+
+    def add(self, x):
+        self.items.append(x)
+
+
+def _hz_truthy(n, xs):
+    ring = _HzRing(n) if n > 0 else None
+    out = 0
+    for x in xs:
+        if ring:
+            ring.add(x)
+            out += 1
+    return out
+
+
+def _hz_truthy_ok(n, xs):
+    ring = _HzRing(n) if n > 0 else None
+    out = 0
+    for x in xs:
+        if ring is not None:
+            ring.add(x)
+            out += 1
+    return out
 '''
 
 
@@ -929,6 +961,9 @@ def controls(ctx, host_module: str, kinds: Sequence[str]) -> str:
     if "late" in kinds:
         g = lambda nm: m.funcs[[k for k in m.funcs if k.split(".")[-1] == nm][0]]
         got["late"] = (len(late_binding_closures(pc, g("_hz_late"))), len(late_binding_closures(pc, g("_hz_late_ok"))))
+    if "truthy" in kinds:
+        g = lambda nm: m.funcs[[k for k in m.funcs if k.split(".")[-1] == nm][0]]
+        got["truthy"] = (len(optional_container_truthiness(pc, g("_hz_truthy"))), len(optional_container_truthiness(pc, g("_hz_truthy_ok"))))
     bad = {k: v for k, v in got.items() if not (v[0] >= 1 and v[1] == 0)}
     if bad:
         raise AnalysisError(f"hazard positive control failed: {bad}")
@@ -968,3 +1003,77 @@ def conversions_under_loop_wide_try(ctx, fn) -> List[Tuple[ast.AST, ast.Try, ast
                             and any(isinstance(z, ast.Name) and z.id in elem for z in ast.walk(y.args[0])):
                         out.append((y, t, lp))
     return out
+
+
+def sized_classes(ctx) -> Set[str]:
+    """names of the program's classes whose instances can be falsy while they exist: they define __len__ or __bool__"""
+    out = set()
+    for f in ctx.prog.funcs.values():
+        if f.cls and f.name in ("__len__", "__bool__"):
+            out.add(f.cls.split(".")[-1])
+    return out
+
+
+def optional_container_truthiness(ctx, fn) -> List[Tuple[ast.AST, str, str]]:
+    """`if x:` / `x and ...` where x is either None or an instance of a class that defines __len__ / __bool__: the test means
+    "x was configured", but an empty container is falsy too - right after construction the branch that uses x is skipped, x is
+    never filled, and the feature it implements never engages.  Returns (test operand, name, class)."""
+    from .zero import truthy_operands
+    sized = sized_classes(ctx)
+    if not sized:
+        return []
+    cfg = ctx.cfg(fn)
+    rd = ctx.rd(fn)
+    out = []
+
+    def cls_of(v: ast.AST, optional: List[bool]) -> Optional[str]:
+        if isinstance(v, ast.IfExp):
+            a, b = cls_of(v.body, optional), cls_of(v.orelse, optional)
+            return a or b
+        if isinstance(v, ast.Constant) and v.value is None:
+            optional.append(True)
+            return None
+        if isinstance(v, ast.Call):
+            t = (dotted(v.func) or "").split(".")[-1]
+            return t if t in sized else None
+        return None
+
+    for n in cfg.nodes:
+        tests = []
+        if n.kind in ("cond", "branch") and n.ast is not None and not isinstance(n.ast, (ast.For, ast.While)):
+            tests.append(n.ast)
+        elif n.kind == "branch" and isinstance(n.ast, ast.While):
+            tests.append(n.ast.test)
+        for e in node_exprs_safe(n):
+            for x in ast.walk(e):
+                if isinstance(x, ast.IfExp):
+                    tests.append(x.test)
+        for t in tests:
+            for op in truthy_operands(t):
+                if not isinstance(op, ast.Name):
+                    continue
+                optional: List[bool] = []
+                classes = set()
+                ds = [d for d in rd.reaching(op.id, n) if d.kind != "mutate"]
+                if not ds:
+                    # a free variable of a closure: look at the enclosing function's definitions
+                    par = fn.parent
+                    if par is not None:
+                        ds = [d for d in ctx.rd(par).all_defs if d.name == op.id and d.kind != "mutate"]
+                for d in ds:
+                    if d.value is None:
+                        continue
+                    c = cls_of(d.value, optional)
+                    if c:
+                        classes.add(c)
+                if classes and optional and not any(o[0] is op for o in out):
+                    out.append((op, op.id, sorted(classes)[0]))
+    return out
+
+
+def node_exprs_safe(n):
+    from .dataflow import node_exprs
+    try:
+        return node_exprs(n)
+    except Exception:
+        return []
